@@ -1,4 +1,5 @@
 import Tibc.Props.C04
+import Tibc.Expect.Packet
 #print axioms Tibc.C04.direction_after_away_base
 #print axioms Tibc.C04.native_send_requires_wf_base
 #print axioms Tibc.C04.send_locks_or_burns
